@@ -171,6 +171,13 @@ def configurations(cases, quick, seed):
                                      ("ma_off", "MADDPG", "ma", 48, [24, 16])):
         out.append(dict(loop=loop, algo=algo, mem=mem, k=2, num_envs=2, learn_step=2, batch=4, evo_steps=8, max_steps=mx, evo=True,
                         elitism=True, mutate_elite=False, presteps=pre, seed=seed + 970))
+    # members with different batch sizes sharing one memory that is still smaller than the larger batch; an offline data set more than
+    # twice as large as the memory (the newest transitions are kept)
+    for loop, algo, mem in (("ma_off", "MADDPG", "ma"), ("ma_off", "MATD3", "ma"), ("off", "DQN", "uniform")):
+        out.append(dict(loop=loop, algo=algo, mem=mem, k=2, num_envs=2, learn_step=2, batch=4, evo_steps=8, max_steps=32, evo=False,
+                        elitism=False, mutate_elite=False, hetero_batch=[4, 32], seed=seed + 980))
+    out.append(dict(loop="offline", algo="CQN", mem="uniform", k=2, num_envs=1, learn_step=1, batch=4, evo_steps=8, max_steps=24, evo=True,
+                    elitism=True, mutate_elite=False, memsize=9, seed=seed + 981))
     if quick:   # bandits: contexts cast to float32, batch = arms (the only shape on which learn() accepts what the loop stores)
         out.append(dict(loop="bandit", algo="NeuralTS", mem="uniform", k=2, num_envs=1, learn_step=1, batch=3, evo_steps=8, max_steps=24,
                         evo=True, elitism=True, mutate_elite=False, bandit_env="float32", mut="param", episode_steps=4, seed=seed + 901))
